@@ -59,7 +59,7 @@ def St.path (s : St) : String := " ".intercalate (s.stack.reverse.map (·.mv))
 def St.report (s : St) (cls : String) (props : String) (kind : String) (detail : String) : St :=
   let msg := s!"MISMATCH class={cls} props={props} kind={kind} line={s.lineNo} root=[{s.rootFen}] moves=[{s.path}] {detail}"
   let s := if cls == "model" then { s with nModel := s.nModel + 1 } else { s with nSpec := s.nSpec + 1 }
-  if s.reports.size < 40 then { s with reports := s.reports.push msg } else s
+  if keepReport s.reports s!"class={cls} props={props} kind={kind} " then { s with reports := s.reports.push msg } else s
 
 def specIdentity (p : Rules.Pos) : String :=
   String.ofList (Rules.renderPlacement p ++ [' ', if p.turn == .white then 'w' else 'b', ' '] ++ Rules.renderCastling p ++ [' ']
